@@ -42,7 +42,7 @@ def run(ctx):
         return rep.finish({'evaluations': 0, 'distinct_nontrivial': 0, 'rule': 'harness did not build', 'samples': []}, [])
     quick = ctx.tier == 'quick'
     n = 500 if quick else 8000
-    g = ctlgen.CtlGen(ctx.rng.fork('ctl'))
+    g = ctlgen.CtlGen(ctx.rng.fork('ctl'), spawn=True)
     cases = []
     import json
     cdir = os.path.join(core.VERIF, 'gen', 'corpus', 'C19')
@@ -74,11 +74,18 @@ def run(ctx):
     threaded = []
     tr = ctx.rng.fork('threads')
     prog = 'g = 0; for "_i" from 0 to 1000000000 do { g = g + 1 }'
+    # ... and on scripts that execute nothing for a long time: every script of the VM asleep (stop/abort must take effect
+    # although no instruction is executed)
+    sleepers = ['[] spawn { sleep 3600 }', '[] spawn { sleep 3600 }; [] spawn { sleep 7200 }; g = 1', '[] spawn { while { true } do { sleep 0.2 } }',
+                '[] spawn { waitUntil { sleep 100; false } }']
     for i in range(40 if quick else 600):
         acts = tr.choice(['T', 'A', 'ST', 'SA', 'TT', 'AT', 'STS', 'SSA', 'TA'])
         delay = tr.choice([20, 50, 100, 300, 1000, 3000])
-        c = {'id': 't%d' % i, 'text': prog, 'actions': acts, 'threaded': True, 'delay': delay}
-        c['line'] = 'ctl2 %s %s %s %s' % (c['id'], hexf(prog), hexf(str(delay)), hexf(acts))
+        text = prog if i % 5 != 4 else tr.choice(sleepers)
+        if text is not prog:
+            delay = tr.choice([3000, 20000, 50000])      # long enough for the scripts to have fallen asleep
+        c = {'id': 't%d' % i, 'text': text, 'actions': acts, 'threaded': True, 'delay': delay}
+        c['line'] = 'ctl2 %s %s %s %s' % (c['id'], hexf(text), hexf(str(delay)), hexf(acts))
         threaded.append(c)
     # control actions issued at an exact instruction boundary of a running execute(start) (hook
     # verif_before_instruction): deterministic, compared with the model
@@ -149,6 +156,51 @@ def run(ctx):
             if n_thr_bad <= 2:
                 rep.violation('oracle', {'property': 'C19', 'kind': 'two-threads', 'seed': ctx.seed, 'case': c['id'], 'program': c['text'],
                                          'actions': c['actions'], 'delay_us': c['delay'], 'difference': bad, 'line': c['line']})
+    # abort on a halted VM discards ALL scripts: programs that have spawned further scripts by the time they are halted
+    # (after k assembly steps, or at an error); the same history once ending in the abort and once going on with start
+    # and steps must leave the same trace, and every action behind the abort finds the VM empty
+    disc = []
+    dr = ctx.rng.fork('discard')
+    progs = ['tr = []; [] spawn { tr pushBack 91 }; [] spawn { tr pushBack 92; tr pushBack 93 }; tr pushBack 1; tr pushBack 2; tr pushBack 3',
+             'tr = []; [] spawn { tr pushBack 91 }; tr pushBack 1; 1 + "a"; tr pushBack 2',
+             'tr = []; h = [] spawn { { tr pushBack _x } forEach [91, 92, 93] }; call { [] spawn { tr pushBack 94 }; tr pushBack 1 }; tr pushBack 2; [] select 5',
+             'tr = []; { [] spawn { tr pushBack 90 } } forEach [1, 2, 3]; tr pushBack 1; tr pushBack 2']
+    for i in range(60 if quick else 600):
+        text = dr.choice(progs)
+        k = 2 + dr.below(12)
+        pre = ''.join(dr.weighted([('a', 9), ('l', 1)]) for _ in range(k))
+        tail = dr.choice(['S', 'Sa', 'SS', 'al', 'aS', 'lSa'])
+        for suffix, tag in (('A', 'x'), ('A' + tail, 'y')):
+            c = {'id': 'd%d%s' % (i, tag), 'text': text, 'actions': pre + suffix, 'pair': i}
+            c['line'] = 'ctl %s %s %s %s' % (c['id'], hexf(text), hexf(c['actions']), hexf(''))
+            disc.append(c)
+    dimpl, _ = ctx.run_pair([c['line'] for c in disc], timeout_ms=15000, model=False)
+    n_disc_bad = n_disc_halted = 0
+    for i in range(len(disc) // 2):
+        cx, cy = disc[2 * i], disc[2 * i + 1]
+        sx, trx = ctlgen.parse_out(dimpl.get(cx['id']))
+        sy, try_ = ctlgen.parse_out(dimpl.get(cy['id']))
+        bad = None
+        if sx is None or sy is None:
+            bad = {'expected': 'an observation for both histories', 'implementation': [(dimpl.get(cx['id']) or '')[:300], (dimpl.get(cy['id']) or '')[:300]]}
+        else:
+            na = len(cx['actions'])
+            if sx[na][0] == 'ok':          # the abort found the VM halted and was accepted
+                n_disc_halted += 1
+                if sx[na][1] != 'empty':
+                    bad = {'expected': 'abort on a halted VM leaves the state empty', 'implementation': '%s:%s:%s' % sx[na]}
+                elif trx != try_:
+                    bad = {'expected': 'nothing runs after the abort: every script was discarded (trace %s)' % trx, 'implementation': try_,
+                           'actions_behind_the_abort': cy['actions'][na:]}
+                else:
+                    for st in sy[na + 1:]:
+                        if st[1] != 'empty':
+                            bad = {'expected': 'the VM stays empty behind the abort', 'implementation': '%s:%s:%s' % st}
+        if bad:
+            n_disc_bad += 1
+            if n_disc_bad <= 2:
+                rep.violation('oracle', {'property': 'C19', 'kind': 'abort-discards-all-scripts', 'seed': ctx.seed, 'case': cy['id'], 'program': cy['text'],
+                                         'actions': cy['actions'], 'difference': bad, 'implementation': (dimpl.get(cy['id']) or '')[:1500], 'line': cy['line']})
     n_or = n_mm = n_undec = 0
     distinct = set()
     samples = []
@@ -191,9 +243,9 @@ def run(ctx):
                                                  'program': c['text'], 'actions': c['actions'], 'implementation': (got or '')[:3000],
                                                  'model': (model.get(c['id']) or '')[:3000], 'line': c['line']})
     cov = {'evaluations': len(cases), 'distinct_nontrivial': len(distinct),
-           'rule': 'programs of 2-8 statements laid out over several lines (two statements on a line, empty lines, nested call/if/for/forEach blocks, an erroring statement) or no script at all; per program one reference run of assembly steps and three random action sequences (length 1-8 over start, stop, abort, assembly step, line step, leave scope); oracle 1: the action table on the reported results and states; oracle 2: every mixed sequence must end each action exactly where single stepping says (first instruction of another line, frame stack below the starting frame, end of script, failing instruction); the Lean model must give the same result, state, next line, frame depth and trace; plus execute(start) runs in which a controller issues stop/abort/start/steps right before a chosen instruction (deterministic, through the guarded hook verif_before_instruction; results, final state, remaining scripts and the trace — exactly one late instruction — compared with the model); plus runs with two real threads (executor inside execute(start) on a script that never ends, controller issuing stop/abort/start after 20-3000 us): both threads must return, the first stop/abort is accepted, a competing start is refused, the VM ends empty; distinct by case line',
+           'rule': 'programs of 2-8 statements laid out over several lines (two statements on a line, empty lines, nested call/if/for/forEach blocks, an erroring statement) or no script at all; per program one reference run of assembly steps and three random action sequences (length 1-8 over start, stop, abort, assembly step, line step, leave scope); oracle 1: the action table on the reported results and states; oracle 2: every mixed sequence must end each action exactly where single stepping says (first instruction of another line, frame stack below the starting frame, end of script, failing instruction); the Lean model must give the same result, state, next line, frame depth and trace; plus execute(start) runs in which a controller issues stop/abort/start/steps right before a chosen instruction (deterministic, through the guarded hook verif_before_instruction; results, final state, remaining scripts and the trace — exactly one late instruction — compared with the model); plus runs with two real threads (executor inside execute(start) on a script that never ends, or on scripts that are all asleep for hours; controller issuing stop/abort/start after 20-50000 us): both threads must return, the first stop/abort is accepted, a competing start is refused, the VM ends empty; plus programs that have spawned further scripts when they are halted: the history ending in abort and the same history going on with start/steps must leave the same trace (abort discards all scripts); distinct by case line',
            'samples': samples, 'oracle_failures': n_or, 'model_mismatches': n_mm, 'undecided_by_reference': n_undec,
-           'actions_exercised': acts_count, 'generator_counts': g.stats, 'threaded_runs': len(threaded), 'threaded_failures': n_thr_bad, 'injected_runs': len(inj), 'injected_runs_where_the_controller_got_its_turn': n_inj_fired, 'injected_failures': n_inj_bad}
+           'actions_exercised': acts_count, 'generator_counts': g.stats, 'threaded_runs': len(threaded), 'threaded_failures': n_thr_bad, 'injected_runs': len(inj), 'injected_runs_where_the_controller_got_its_turn': n_inj_fired, 'injected_failures': n_inj_bad, 'discard_histories': len(disc) // 2, 'discard_histories_where_the_abort_was_accepted': n_disc_halted, 'discard_failures': n_disc_bad}
     return rep.finish(cov, ['interleavings of the two threads are covered exhaustively only by the interleaving model and its theorems; the threaded runs on the implementation sample real schedules (outcome sets, not compared step by step) and cannot exhibit memory-model effects',
                             'the line of an instruction in the model is derived from the statement layout of the generated program',
                             'evaluate_expression and breakpoints are outside the model'])
